@@ -1347,12 +1347,12 @@ def trinterp(start, end, s=None):
 
         if start is None:
             #	TRINTERP(T, s)
-            q0 = base.r2q(base.t2r(end))
+            q0 = base.r2q(end)
             qr = base.slerp(base.eye(), q0, s)
         else:
             #	TRINTERP(T0, T1, s)
-            q0 = base.r2q(base.t2r(start))
-            q1 = base.r2q(base.t2r(end))
+            q0 = base.r2q(start)
+            q1 = base.r2q(end)
             qr = base.slerp(q0, q1, s)
 
         return base.q2r(qr)
@@ -1379,7 +1379,7 @@ def trinterp(start, end, s=None):
 
         return base.rt2tr(base.q2r(qr), pr)
     else:
-        return ValueError('Argument must be SO(3) or SE(3)')
+        raise ValueError('Argument must be SO(3) or SE(3)')
 
 
 def delta2tr(d):
